@@ -201,6 +201,38 @@ func (e *Engine) feasible(c *Term) string {
 	return r
 }
 
+// simp rewrites a Boolean term under the facts already in the path condition
+// (syntactic: sub-terms that occur, or whose negation occurs, in the path condition).
+func (e *Engine) simp(t *Term) *Term {
+	if t.Const || t.K != KBool {
+		return t
+	}
+	if e.pcSet[t.String()] {
+		return tTrue
+	}
+	switch t.Op {
+	case "not":
+		if e.pcSet[t.Args[0].String()] {
+			return tFalse
+		}
+		return Not(e.simp(t.Args[0]))
+	case "and":
+		return And(e.simp(t.Args[0]), e.simp(t.Args[1]))
+	case "or":
+		return Or(e.simp(t.Args[0]), e.simp(t.Args[1]))
+	case "ite":
+		return Ite(e.simp(t.Args[0]), e.simp(t.Args[1]), e.simp(t.Args[2]))
+	case "=":
+		if t.Args[0].K == KBool {
+			return Eq(e.simp(t.Args[0]), e.simp(t.Args[1]))
+		}
+	}
+	if e.pcSet["(not "+t.String()+")"] {
+		return tFalse
+	}
+	return t
+}
+
 // decide resolves a symbolic Boolean, forking the exploration when both
 // outcomes are feasible under the current path condition.
 func (e *Engine) decide(c *Term) bool {
@@ -210,14 +242,29 @@ func (e *Engine) decide(c *Term) bool {
 	if c.Const {
 		return c.BVal
 	}
+	if sc := e.simp(c); sc.Const {
+		// implied by the path condition: no decision is recorded (replays see the same)
+		return sc.BVal
+	}
 	if e.dpos < len(e.prefix) {
 		d := e.prefix[e.dpos]
 		e.dpos++
 		e.decided = append(e.decided, d)
+		if e.seeded {
+			// partition prefixes were not produced by a fork: check them
+			if known, kv, _ := e.decideSimple(c); known && kv != d {
+				e.abort("infeasible", "partition prefix contradicts path condition")
+			}
+		}
 		if d {
 			e.addPC(c)
 		} else {
 			e.addPC(Not(c))
+		}
+		if e.seeded && e.dpos == len(e.prefix) {
+			if r, _ := e.solver.Check(e.pc, nil); r == "unsat" {
+				e.abort("infeasible", "partition prefix infeasible")
+			}
 		}
 		return d
 	}
